@@ -1,6 +1,7 @@
 package main
 
 import (
+	"strings"
 	"encoding/json"
 	"fmt"
 	"os"
@@ -48,6 +49,18 @@ func replay(path string) int {
 		defer os.RemoveAll(tmp)
 		rep := mc.NewReport(tmp, "C04", "quick", "fault_enumeration")
 		checkC04(rep, false)
+		return rep.Finish()
+	}
+	if f.Property == "C09" && strings.HasPrefix(f.Violation.Part, "http-") {
+		// the HTTP parts are plain enumerations of a few seconds: run them again as a whole
+		tmp, _ := os.MkdirTemp(mc.ScratchDir(), "verif-replay-")
+		defer os.RemoveAll(tmp)
+		rep := mc.NewReport(tmp, "C09", "quick", "model_checking")
+		if f.Violation.Part == "http-database-without-key" {
+			c09OldDatabase(rep)
+		} else {
+			c09HTTP(rep, false)
+		}
 		return rep.Finish()
 	}
 	rp, ok := replayers[f.Property+"/"+f.Violation.Part]
